@@ -5,6 +5,9 @@ invalid names/alignments; negative/equal/positive/extreme orders; empty, data, c
 sections; with/without `.addrtab`), runs flatten / code_size / relocate_to_base / copy_flattened_data /
 copy_section_data / JitRuntime::add on the real code and judges every observation with an independent oracle
 (layout relations, per-byte classification of every destination between canaries and ASan red zones).
+Round 11: section flags and names as attributes (section_by_name), `.text` with a virtual size of its own, the documented
+(order, id) sequence, zeroed alignment stretches (copy and JIT memory dirtied beforehand), copies before relocation,
+relocate_to_base() without a summary, sections left with a null buffer, the span JitRuntime::add keeps for the image.
 This module shards the tables, merges what the monitors saw and turns it into a verdict."""
 import json
 import re
@@ -18,7 +21,19 @@ SUM_KEYS = ("tables", "recycled_reinit", "recycled_soft_reset", "recycled_hard_r
             "addrtab_not_last", "addrtab_shrunk", "addrtab_slots_checked", "call_sites_rel", "call_sites_tab",
             "relocate_failed", "copies_skipped_big", "undersized_accepted_impl_defined", "undersized_refused_impl_defined",
             "bytes_section", "bytes_padding", "bytes_beyond", "bytes_slot", "bytes_jit", "canary_checks",
-            "null_buffer_sections")
+            "null_buffer_sections",
+            "text_virt_only", "text_virt_larger", "text_virt_smaller", "text_overflow", "flags_checked", "flags_nonzero",
+            "by_order_sequences", "equal_order_pairs", "equal_order_nonempty_pairs", "bytes_align_pad", "align_pad_tables",
+            "pre_reloc_probes", "pre_reloc_tables_with_sites", "reloc_null_summary", "reloc_null_summary_shrunk",
+            "null_buffers_left", "null_buffer_tables_left", "jit_span_queried", "jit_predirtied", "jit_predirtied_reused",
+            "jit_small_allocs", "jit_align_pad_bytes", "jit_shrunk_spans", "names_looked_up", "names_duplicate",
+            "names_absent_refused", "reflatten_identical", "reflatten_empty_moved", "reflatten_differs")
+# dimensions added in round 11: a run in which one of them observed nothing is inconclusive
+NEW_DIMENSIONS = ("text_virt_only", "text_virt_larger", "text_virt_smaller", "flags_nonzero", "by_order_sequences",
+                  "equal_order_nonempty_pairs", "bytes_align_pad", "pre_reloc_probes", "pre_reloc_tables_with_sites",
+                  "reloc_null_summary", "reloc_null_summary_shrunk", "null_buffers_left", "jit_span_queried",
+                  "jit_predirtied_reused", "jit_small_allocs", "jit_align_pad_bytes", "jit_shrunk_spans",
+                  "names_looked_up", "names_duplicate", "names_absent_refused")
 MAX_KEYS = ("max_sections", "max_image")
 
 
@@ -53,6 +68,7 @@ def run(tier, args):
         return argv, rc, out, err
 
     tot = {k: 0 for k in SUM_KEYS + MAX_KEYS}
+    flag_combo = [0] * 16
     kinds = {}
     flat = {}
     sect = {}
@@ -97,6 +113,7 @@ def run(tier, args):
             tot[k] += res[k]
         for k in MAX_KEYS:
             tot[k] = max(tot[k], res[k])
+        _addv(flag_combo, res["flag_combo"])
         for k, v in res["kinds"].items():
             kinds[k] = kinds.get(k, 0) + v
         for cls, d in res["flat"].items():
@@ -110,6 +127,13 @@ def run(tier, args):
         for s in res["samples"]:
             if len(samples) < 4:
                 samples.append(s)
+
+    if not args.replay and not chk.violations and not chk.known_hits:
+        dead = [k for k in NEW_DIMENSIONS if tot[k] == 0]
+        if len([c for c in flag_combo if c]) < 16:
+            dead.append("flag_combo (only %d of 16 section-flag combinations)" % len([c for c in flag_combo if c]))
+        if dead:
+            raise common.HarnessError("dimensions that observed nothing in this run: %s" % ", ".join(dead))
 
     flags_seen_flat = sorted({i for d in flat.values() for i in range(4) if d["probes"][i]})
     flags_seen_sect = sorted({i for d in sect.values() for i in range(4) if d[i]})
@@ -149,6 +173,24 @@ def run(tier, args):
                                          "beyond_image": tot["bytes_beyond"], "address_table_slot": tot["bytes_slot"],
                                          "jit_memory": tot["bytes_jit"]},
         "canary_pairs_checked": tot["canary_checks"],
+        "text_section_with_virtual_size": {"virtual_only": tot["text_virt_only"], "larger_than_buffer": tot["text_virt_larger"],
+                                           "smaller_than_buffer": tot["text_virt_smaller"], "overflowing": tot["text_overflow"]},
+        "section_flags": {"sections_compared": tot["flags_checked"], "non_zero": tot["flags_nonzero"],
+                          "combinations_of_the_4_public_flags_seen": len([c for c in flag_combo if c])},
+        "order_sequence": {"sections_by_order_sequences_checked": tot["by_order_sequences"],
+                           "equal_order_pairs_checked": tot["equal_order_pairs"],
+                           "equal_order_pairs_both_non_empty": tot["equal_order_nonempty_pairs"]},
+        "alignment_padding_between_sections": {"tables_with_it": tot["align_pad_tables"],
+                                               "bytes_compared_with_zero_under_kPadSectionBuffer": tot["bytes_align_pad"],
+                                               "bytes_in_jit_images": tot["jit_align_pad_bytes"]},
+        "copy_before_relocation": {"probes": tot["pre_reloc_probes"], "tables_with_unrelocated_call_sites": tot["pre_reloc_tables_with_sites"]},
+        "relocate_to_base_without_summary": {"tables": tot["reloc_null_summary"], "of_which_code_size_shrank": tot["reloc_null_summary_shrunk"]},
+        "sections_copied_with_null_buffer": {"sections": tot["null_buffers_left"], "tables": tot["null_buffer_tables_left"]},
+        "jit_span": {"queried": tot["jit_span_queried"], "estimate_larger_than_image": tot["jit_shrunk_spans"],
+                     "memory_dirtied_before_add": tot["jit_predirtied"], "image_landed_in_dirtied_memory": tot["jit_predirtied_reused"],
+                     "neighbour_allocations_written": tot["jit_small_allocs"]},
+        "section_by_name": {"lookups": tot["names_looked_up"], "of_duplicate_names": tot["names_duplicate"],
+                            "absent_names": tot["names_absent_refused"]},
         "side_observations": {
             "section_names_without_terminator": "%d of %d" % (tot["names_not_terminated"], tot["names_checked"]),
             "sections_with_null_buffer_given_an_empty_buffer_before_copy": tot["null_buffer_sections"],
@@ -158,6 +200,8 @@ def run(tier, args):
             "relocate_to_base_failed": tot["relocate_failed"],
             "tables_too_big_for_copy_probes": tot["copies_skipped_big"],
             "tables_with_bytes_covered_by_no_section": tot["uncovered_gap_tables"],
+            "second_flatten_of_the_unchanged_holder": {"same_layout": tot["reflatten_identical"], "only_empty_sections_moved": tot["reflatten_empty_moved"],
+                                                       "non_empty_section_or_code_size_changed": tot["reflatten_differs"]},
         },
         "exhaustive": False,
         "jobs": len(jobs),
@@ -165,8 +209,11 @@ def run(tier, args):
     chk.assumptions += [
         "ASan/UBSan instrumented static build of /repo's working tree; destinations are carved from a malloc block with 64 canary bytes and manually poisoned ASan red zones on both sides",
         "section bytes are known from the driver's own record of what it emitted (embed()/raw bytes and fixed x86/AArch64 encodings); absolute call/jmp sites are judged by meaning: rel32 reaches the target, or the instruction points at an address-table slot of the image that holds the target",
-        "only what C10 states is demanded: alignment is demanded of non-empty sections; order only between sections of different order value; the exact offsets are not compared with the reference layout (counted only); a destination smaller than code_size() but large enough for every section byte may be accepted or refused (both counted)",
-        "sections that never got a buffer are given an empty one (reserve_buffer) before copying because memcpy(dst, nullptr, 0) inside the copy functions trips the non-recoverable UBSan nonnull check; sizes are unaffected",
+        "only what C10 states is demanded: alignment is demanded of non-empty sections; order is the documented one (order value first, creation id second: sections_by_order() must be sorted that way and offsets must not decrease along it); the exact offsets and the estimate before flatten() are not compared with the tightest reference layout (counted only); a destination smaller than code_size() but large enough for every section byte may be accepted or refused (both counted)",
+        "under kPadSectionBuffer every byte of [0, end of image) that is not a section byte has to be zero, the alignment stretch between two sections included; JitRuntime::add is held to the same and its memory is dirtied beforehand (allocate, fill, release) so that an unwritten byte cannot read as zero by luck; the span kept by add() must cover the image",
+        "section flags (the 4 public ones, all 16 combinations) and names must be recorded as given and must not influence layout or bytes; section_by_name() must find the first section created under a name",
+        "flatten() and relocate_to_base() are documented as 'should never be called more than once': a second flatten() is a counted side observation only, a second relocation is not driven; copying before any relocation and relocate_to_base() without a summary are driven and judged",
+        "in half of the tables the sections that never got a buffer are given an empty one (reserve_buffer) before copying, in the other half they keep data() == nullptr (a memcpy(dst, nullptr, 0) inside the copy functions is a UBSan nonnull report); sizes are unaffected",
         "alignments above 64 KiB, images above 6 MiB and more than 40 sections are not explored; JitRuntime::add is exercised for x86-64 tables only (host architecture)",
     ]
     return chk.finish()
